@@ -36,6 +36,8 @@ def configs(tier, seed):
           i += 1
           if tier == 'quick' and i % 3 != 0:
             continue
+          if tier == 'thorough' and i % 2 != 0:
+            continue
           cfgs.append(dict(name='max%d/wbf%s/%s/fwd%d' % (mx, wbf, cache[0], fwd), max=mx, wbf=wbf, cache=cache, fwd=fwd))
   return cfgs
 
